@@ -289,7 +289,28 @@ func (s *Store[H]) DeleteRange(ctx context.Context, from, to uint64) error {
 		// If it exists, we can't wipe - there's a header that would become the new tail
 		_, err := s.getByHeight(ctx, to)
 		if errors.Is(err, header.ErrNotFound) {
-			// No header at 'to', safe to wipe the entire store
+			// No header at 'to', safe to wipe the entire store.
+			// Remove the headers themselves first, so they are gone for good
+			// and onDelete handlers get to see them.
+			actualTo, _, deleteErr := s.deleteRangeRaw(ctx, from, to)
+			if deleteErr != nil {
+				// save the progress as for the tail-side deletion, s.t. retries continue from it
+				if err := s.setTail(ctx, s.ds, actualTo); err != nil {
+					deleteErr = errors.Join(
+						deleteErr,
+						fmt.Errorf("header/store: setting tail to %d: %w", actualTo, err),
+					)
+				} else if err := s.ensureHead(ctx, head, actualTo); err != nil {
+					deleteErr = errors.Join(deleteErr, fmt.Errorf("header/store: ensuring head: %w", err))
+				}
+				return fmt.Errorf(
+					"header/store: delete range [%d:%d) (actual: %d): %w",
+					from,
+					to,
+					actualTo,
+					deleteErr,
+				)
+			}
 			if err := s.wipe(ctx); err != nil {
 				return fmt.Errorf("header/store: wipe: %w", err)
 			}
@@ -434,6 +455,23 @@ func (s *Store[H]) deleteRangeRaw(
 	}
 
 	return height, missing, err
+}
+
+// ensureHead recedes the head to the highest header that is still stored, if the given current head
+// got deleted. Parallel deletion does not stop at the failed height and may have removed headers
+// above it, including the head, while reporting no progress beyond the failed height.
+func (s *Store[H]) ensureHead(ctx context.Context, head H, floor uint64) error {
+	if ok, _ := s.Has(ctx, head.Hash()); ok {
+		return nil
+	}
+
+	var err error
+	for height := head.Height() - 1; height >= floor; height-- {
+		if err = s.setHead(ctx, s.ds, height); err == nil {
+			return nil
+		}
+	}
+	return err
 }
 
 // setHead sets the head of the store to the specified height.
